@@ -80,7 +80,8 @@ func LayerConvertFunc(opts ...estargz.Option) converter.ConvertFunc {
 		}
 		defer ra.Close()
 		sr := io.NewSectionReader(ra, 0, desc.Size)
-		blob, err := estargz.Build(sr, append(opts, estargz.WithContext(ctx))...)
+		// copy the options; layers are converted in parallel and must not share the appended slot
+		blob, err := estargz.Build(sr, append(append([]estargz.Option{}, opts...), estargz.WithContext(ctx))...)
 		if err != nil {
 			return nil, err
 		}
